@@ -113,7 +113,11 @@ class Contract:
         locals=None,
         at=None,
         eq_identity=False,
+        opaque=None,
+        tier=None,
     ):
+        self.tier = tier  # "thorough": verified in the thorough tier only (too many paths for the per-change check)
+        self.opaque = opaque or {}  # {expression source prefix: type}: pure expressions outside the subset, evaluated to an arbitrary value
         self.eq_identity = eq_identity  # trusted __eq__ contract stating that equality is object identity (ids are unique)
         self.at = at or {}  # program-point assertions: {statement source prefix: fn(c, L) -> {name: goal}}
         self.locals = locals or {}  # static types of container-valued locals ([] / set() / {} literals)
